@@ -13,7 +13,8 @@
 //
 // Part 2 (worker subprocesses; the loader mutates the types universe and may exit): every
 // constraint tree up to a leaf bound × every (cfg.TargetOS, manifest target, cfg.TargetArch,
-// tags ⊆ {a,b}) configuration is loaded through api.LoadProgramVFS as the second file of a
+// ordered tag list: every permutation of every subset of {a,b,c} plus a list with a duplicate
+// entry) configuration is loaded through api.LoadProgramVFS as the second file of a
 // two-file non-main package; the guarded symbol must be in the package scope iff the formula is
 // true. For single-leaf constraints the main package also references the guarded symbol, so the
 // whole load must succeed iff the formula is true.
@@ -331,6 +332,16 @@ func (f *form) kinds() int {
 	return f.x.kinds() | f.y.kinds()
 }
 
+func (f *form) hasTag(t string) bool {
+	switch f.op {
+	case 't':
+		return f.tag == t
+	case '!':
+		return f.x.hasTag(t)
+	}
+	return f.x.hasTag(t) || f.y.hasTag(t)
+}
+
 func (f *form) leaves() int {
 	switch f.op {
 	case 't':
@@ -339,6 +350,28 @@ func (f *form) leaves() int {
 		return f.x.leaves()
 	}
 	return f.x.leaves() + f.y.leaves()
+}
+
+// tagListClass classifies the configured tag list of a (smallest) witness.
+func tagListClass(tags []string) string {
+	if len(tags) == 0 {
+		return "none"
+	}
+	seen := map[string]bool{}
+	sorted := true
+	for i, t := range tags {
+		if seen[t] {
+			return "duplicate-entry"
+		}
+		seen[t] = true
+		if i > 0 && tags[i-1] > t {
+			sorted = false
+		}
+	}
+	if !sorted {
+		return "not-ascending"
+	}
+	return "ascending"
 }
 
 func kindsString(k int) string {
@@ -525,8 +558,9 @@ func selfCheckForms(r *mc.Run, fs []*form, atoms []string) {
 func inclusion(r *mc.Run) {
 	tagAtoms := []string{"a", "b", "linux"}
 	allAtoms := []string{"a", "b", "linux", "js", "wasm", "x64"}
-	// fs = small ++ big. small: every formula with <= 2 leaves over all six atoms; big: the 3-leaf
-	// formulas (quick: over {a,b,linux}; thorough: over all six atoms).
+	// fs = small ++ bigTag ++ bigRest. small: every formula with <= 2 leaves over all six atoms;
+	// bigTag: the 3-leaf formulas over {a,b,linux}; bigRest (thorough): the other 3-leaf formulas
+	// over all six atoms.
 	var fs []*form
 	maxLeaves := 3
 	memo := map[int][]*form{}
@@ -534,27 +568,84 @@ func inclusion(r *mc.Run) {
 		fs = append(fs, forms(allAtoms, n, memo)...)
 	}
 	nSmall := len(fs)
+	fs = append(fs, forms(tagAtoms, 3, map[int][]*form{})...)
+	nTag := len(fs)
 	if r.Thorough() {
-		fs = append(fs, forms(allAtoms, 3, memo)...)
+		for _, f := range forms(allAtoms, 3, memo) {
+			if f.kinds()&4 != 0 || f.hasTag("js") {
+				fs = append(fs, f)
+			}
+		}
 		r.Bound("inclusion_atoms", allAtoms)
 	} else {
-		fs = append(fs, forms(tagAtoms, 3, map[int][]*form{})...)
 		r.Bound("inclusion_atoms", map[string]any{"leaves<=2": allAtoms, "leaves=3": tagAtoms})
-		r.Bound("inclusion_3leaf_configurations", "those with cfg.TargetArch unset (28 of 84); <=2-leaf constraints meet all 84")
 	}
 	r.Bound("inclusion_max_leaves", maxLeaves)
 	selfCheckForms(r, fs, allAtoms)
 
+	// Configured tags are ORDERED lists (cfg.BuilgTags is a slice the user fills in any order):
+	// every permutation of every subset of {a,b,c}, plus one list with a duplicate entry. The
+	// constraints only mention a and b; c is a bystander. "base" lists are the ascending lists over
+	// {a,b}; the others are "extra".
+	baseLists := [][]string{{}, {"a"}, {"b"}, {"a", "b"}}
+	var extraLists [][]string
+	{
+		alpha := []string{"a", "b", "c"}
+		var rec func(cur []string, used int, n int)
+		rec = func(cur []string, used int, n int) {
+			if len(cur) == n {
+				l := append([]string(nil), cur...)
+				for _, b := range baseLists {
+					if strings.Join(b, ",") == strings.Join(l, ",") {
+						return
+					}
+				}
+				extraLists = append(extraLists, l)
+				return
+			}
+			for i, t := range alpha {
+				if used&(1<<i) == 0 {
+					rec(append(cur, t), used|1<<i, n)
+				}
+			}
+		}
+		for n := 1; n <= 3; n++ {
+			rec(nil, 0, n)
+		}
+		extraLists = append(extraLists, []string{"a", "a", "b"})
+	}
+	oms := [][2]string{{"", ""}, {"js", ""}, {"linux", ""}, {"wasm4", ""}, {"windows", ""}, {"", "linux"}, {"js", "linux"}}
+	archs := []string{"", "wasm", "x64"}
 	var cfgs []Cfg
-	for _, om := range [][2]string{{"", ""}, {"js", ""}, {"linux", ""}, {"wasm4", ""}, {"windows", ""}, {"", "linux"}, {"js", "linux"}} {
-		for _, arch := range []string{"", "wasm", "x64"} {
-			for _, tags := range [][]string{{}, {"a"}, {"b"}, {"a", "b"}} {
+	for _, om := range oms {
+		for _, arch := range archs {
+			for _, tags := range baseLists {
+				cfgs = append(cfgs, Cfg{om[0], om[1], arch, tags})
+			}
+		}
+	}
+	nBase := len(cfgs)
+	// extra tag lists: thorough crosses them with every (OS, manifest, arch); quick with the three
+	// OS settings that make `linux` false / true via cfg / true via the manifest, arch unset.
+	for _, om := range oms {
+		for _, arch := range archs {
+			if !r.Thorough() && (arch != "" || !(om == [2]string{"", ""} || om == [2]string{"linux", ""} || om == [2]string{"", "linux"})) {
+				continue
+			}
+			for _, tags := range extraLists {
 				cfgs = append(cfgs, Cfg{om[0], om[1], arch, tags})
 			}
 		}
 	}
 	r.Bound("inclusion_constraints", len(fs))
 	r.Bound("inclusion_configurations", len(cfgs))
+	r.Bound("inclusion_tag_lists", append(append([][]string{}, baseLists...), extraLists...))
+	r.Bound("inclusion_plan", map[string]any{
+		"<=2-leaf constraints":                                       "both file layouts in every configuration",
+		"3-leaf over {a,b,linux}":                                    mc.Pick(r, "ascending tag lists over {a,b}, TargetArch unset (28 configurations)", "all 84 configurations with ascending tag lists over {a,b}; the other tag lists with TargetArch unset (91)"),
+		"3-leaf with js/wasm/x64 (thorough)":                         mc.Pick(r, "not run", "all 84 configurations with ascending tag lists over {a,b}"),
+		"configurations with permuted / 3-tag / duplicate tag lists": mc.Pick(r, "TargetOS in {unset, linux, manifest linux}, TargetArch unset (39)", "every (OS, manifest, arch) (273)"),
+	})
 
 	texts := make([]string, len(fs))
 	for i, f := range fs {
@@ -577,12 +668,17 @@ func inclusion(r *mc.Run) {
 			jobs = append(jobs, jobInfo{Job{Cfg: c, Constraints: texts[:nSmall], Layout: layout}, 0, ci})
 			pairs += int64(nSmall)
 		}
-		if r.Thorough() || c.Arch == "" {
-			for lo := nSmall; lo < len(fs); lo += pack {
-				hi := min(lo+pack, len(fs))
-				jobs = append(jobs, jobInfo{Job{Cfg: c, Constraints: texts[lo:hi], Layout: (ci + lo/pack) % 2}, lo, ci})
-				pairs += int64(hi - lo)
-			}
+		hiBig := nSmall // end of the 3-leaf range this configuration gets
+		switch {
+		case ci < nBase && r.Thorough():
+			hiBig = len(fs)
+		case ci < nBase && c.Arch == "", ci >= nBase && r.Thorough() && c.Arch == "":
+			hiBig = nTag
+		}
+		for lo := nSmall; lo < hiBig; lo += pack {
+			hi := min(lo+pack, hiBig)
+			jobs = append(jobs, jobInfo{Job{Cfg: c, Constraints: texts[lo:hi], Layout: (ci + lo/pack) % 2}, lo, ci})
+			pairs += int64(hi - lo)
 		}
 		for i, f := range fs {
 			if f.op == 't' || (f.op == '!' && f.x.op == 't') {
@@ -644,7 +740,7 @@ func inclusion(r *mc.Run) {
 				}
 			}
 			if minimal {
-				r.Report(fmt.Sprintf("inclusion|%s|%s|loader|atoms=%s", c.obs, c.dir, kindsString(c.kinds)), c.what, c.replay)
+				r.Report(fmt.Sprintf("inclusion|%s|%s|loader|atoms=%s|tags=%s", c.obs, c.dir, kindsString(c.kinds), tagListClass(cfgs[c.order[2]].Tags)), c.what, c.replay)
 			}
 		}
 	}
